@@ -385,7 +385,7 @@ class Engine:
             return VSet(self.list_mem(v, st), T.set(v.ty.args[0]))
         if isinstance(v, VTuple):
             if not v.items:
-                raise Unsupported("set() of empty literal needs a type", node)
+                return VSet(z3.K(self.S.Atom, z3.BoolVal(False)), T.set(T.atom))  # empty literal: column-name sets are the only untyped empties in the targets
             zs = [self.as_atom(x, st, node) for x in v.items]
             arr = z3.K(zs[0].sort(), z3.BoolVal(False))
             for z in zs:
@@ -526,7 +526,15 @@ class Engine:
         return [(st, ("raise", Raised(name)))]
 
     def refine_optional(self, test, t, f):
-        """`x is None` / `x is not None` on a local holding an optional value: unwrap it on the not-None side."""
+        """`x is None` / `x is not None` on a local holding an optional value: unwrap it on the not-None side.
+        `isinstance(x, C)` on a local object: on the true side x is known to be a C (downcast of the static type)."""
+        if isinstance(test, ast.Call) and isinstance(test.func, ast.Name) and test.func.id == "isinstance" and len(test.args) == 2 \
+                and isinstance(test.args[0], ast.Name) and t is not None:
+            cname = self.dotted(test.args[1])
+            cname = cname.split(".")[-1] if cname else None
+            v = t.env.get(test.args[0].id)
+            if cname in self.classes and isinstance(v, VScalar) and v.ty.kind == "obj" and self.is_subclass(cname, v.ty.name):
+                t.env[test.args[0].id] = VScalar(v.z, T.obj(cname))
         if isinstance(test, ast.Compare) and len(test.ops) == 1 and isinstance(test.left, ast.Name) and isinstance(test.comparators[0], ast.Constant) and test.comparators[0].value is None:
             nm = test.left.id
             notnone_side, none_side = (t, f) if isinstance(test.ops[0], ast.IsNot) else ((f, t) if isinstance(test.ops[0], ast.Is) else (None, None))
@@ -1894,7 +1902,7 @@ def veq_safe(eng: Engine, a: V, b: V, st: State, node):
     if isinstance(a, VPy) or isinstance(b, VPy):
         o = b if isinstance(a, VPy) else a
         p = a if isinstance(a, VPy) else b
-        if isinstance(o, (VList, VSet, VDict, VNone, VStr)):
+        if isinstance(o, (VList, VSet, VDict, VNone, VStr, VTuple)):
             if isinstance(p.obj, int) and not isinstance(o, VNone):
                 return False  # e.g. partition_by != 1 where partition_by is a list
             if isinstance(o, VNone):
